@@ -1,4 +1,5 @@
 import PydjinniModel.Sys.Pkg
+import PydjinniModel.Sys.PkgHistory
 /-!
 # C20 — a failing external build/publish tool is reported and leaves no trace of success
 
@@ -1739,5 +1740,27 @@ def cfgSwiftGit (addr : String) : Cfg := { cfgSwift with platforms := [("ios", [
         let w1 := (run allOk (packageOp c) { w0 with files := [] }).2
         let r := run (missingFrom 0) (publishSteps c) { w1 with calls := [] }
         !c.swiftRepo.isRemote && r.1 == .ok && r.2.calls == [] && r.2.files.contains ["proj", "git@h:foo", "bar", "T", "Package.swift"])
+
+/-! #### histories on one output tree
+
+Whatever earlier package runs — under whatever configurations, succeeding or failing anywhere — left in the tree (a finished archive in
+the package build directory of a run without `clean`, a filled output directory, build directories): a tool that fails at any invocation
+point of the next run ends it with the external-command error, the working directory restored, nothing run afterwards, and everything
+that then lies in the package output directory was there before *and* the failure was in the build phase (`package` wipes the directory
+first). In particular no artifact of an earlier run is delivered as the result of a failed one. -/
+theorem history_fault_spec (hist : List (Cfg × Oracle)) (c : Cfg) (k : Nat) (f : ToolResult) (hf : f ≠ .ok) (w : World) (hw : w.calls = [])
+    (hk : k < (run (faultAt k f) (packageOp c) (afterRuns hist w)).2.calls.length) :
+    (run (faultAt k f) (packageOp c) (afterRuns hist w)).1 = .err .external
+    ∧ (run (faultAt k f) (packageOp c) (afterRuns hist w)).2.cwd = (afterRuns hist w).cwd
+    ∧ (run (faultAt k f) (packageOp c) (afterRuns hist w)).2.calls.length = k + 1
+    ∧ ∀ q ∈ (run (faultAt k f) (packageOp c) (afterRuns hist w)).2.files, under (resolve (afterRuns hist w).cwd c.pkgOut) q = true →
+        q ∈ (afterRuns hist w).files ∧ (run (faultAt k f) (buildAll c) (afterRuns hist w)).1 ≠ .ok :=
+  packageOp_fault_spec c k f hf (afterRuns hist w) (afterRuns_calls hist w hw) hk
+
+/-- … and a failure in the packaging phase itself (the build succeeded) leaves the package output directory empty -/
+theorem history_package_failure_no_artifact (hist : List (Cfg × Oracle)) (c : Cfg) (orc : Oracle) (w : World)
+    (hr : (run orc (packageSteps c) (afterRuns hist w)).1 ≠ .ok) :
+    ∀ q ∈ (run orc (packageSteps c) (afterRuns hist w)).2.files, under (resolve (afterRuns hist w).cwd c.pkgOut) q = false :=
+  package_failure_no_artifact c orc (afterRuns hist w) hr
 
 end Pydjinni.Sys.Pkg
